@@ -143,7 +143,9 @@ def mnemonic_check(seed, derive=False):
     from pytoniq_core.crypto import keys
     r = random.Random(seed)
     with mock.patch.object(keys.os, "urandom", lambda n: r.randbytes(n)):
-        ws = keys.mnemonic_new()
+        # the optional arguments are exercised too: "generated mnemonics are always valid" whatever way they are asked for
+        k = r.randrange(4)
+        ws = keys.mnemonic_new() if k < 2 else (keys.mnemonic_new(24) if k == 2 else keys.mnemonic_new(24, r.choice(["", "pw", "correct horse"])))
     if len(ws) != 24 or any(w not in keys.words for w in ws):
         return f"generated mnemonic has {len(ws)} words / unknown words"
     entropy = hmac.new(" ".join(ws).encode(), b"", hashlib.sha512).digest()
